@@ -43,4 +43,27 @@ CHECKS = {
         'expected_probes': ['limiter_blocked', 'several_blocked', 'admitted_at_exact_expiry',
                             'later_arrival_admitted_first', 'window_full_at_admission'],
     },
+    'C26': {
+        'level': 'exploration',
+        'engine': 'asyncprims',
+        'technique': DST + ': seeded concurrent lookups, load durations and failures, per-lookup cancellation at '
+                           'seeded instants (task.cancel) and clock advances around the lifetime against the real '
+                           'TimeLimitedMaxSizeCache on a virtual-time asyncio loop; atomic capacity probe passes, '
+                           'freshness, single-flight and failure-isolation oracles over the recorded history',
+        'design_ref': 'DESIGN.md section 6 (C26), section 5.2',
+        'level_text': 'Seeded exploration of interleavings of concurrent lookups of few keys, load completions and '
+                      'failures, cancellation of individual lookups (before they run, while they wait for their own or '
+                      'somebody else\'s load, in the instant the load completes) and expiry instants, on the real cache '
+                      'with the real sortedcontainers. Capacity is decided by atomic probe passes over all keys at '
+                      'seeded instants and at the end, freshness by the age of every value a lookup did not load '
+                      'itself, single-flight by overlap of load intervals per key, isolation by the outcome of every '
+                      'lookup. Samples schedules; not a proof.',
+        'level_note': 'Trusts CPython asyncio Task/Future cancellation semantics on the custom loop; prometheus is a '
+                      'no-op fake whose time(metric, fut) awaits fut like the real one; num_slots <= 4, <= 6 keys, '
+                      '<= 8 actors x <= 7 lookups, lifetimes are even multiples of 1/1024 s.',
+        'scenarios': [{'module': 'worlds.prims.tlcache', 'quick': 40000, 'thorough': 1000000}],
+        'expected_probes': ['hit', 'joined_inflight_load', 'load_failed', 'joined_load_failed', 'eviction',
+                            'expired_entry_reloaded', 'probe_pass_full', 'cancel_first_looker',
+                            'cancel_first_looker_with_joiners', 'cancel_joiner', 'hit_one_tick_before_expiry'],
+    },
 }
